@@ -319,6 +319,15 @@ class Blockwise(ArrayExpr):
         return f"{prefix}-{self.deterministic_token}"
 
     def _layer(self):
+        lowered = self._lower()
+        if lowered is not None and lowered._name != self._name:
+            # Not lowered yet: the operands' chunks still need unifying, and the
+            # block-index arithmetic below is only valid on aligned operands.
+            # Generic walkers of a raw expression tree (``dask.optimize``) call
+            # ``_layer()`` directly, so build the graph from the materialized
+            # form, as the ``ArrayExpr`` default does for every un-lowered node.
+            return ArrayExpr._layer(self)
+
         arginds = [(a, i) for (a, i) in toolz.partition(2, self.args)]
 
         numblocks = {}
